@@ -443,6 +443,10 @@ def run(ctx):
     from . import C06
     C06.version_change_rules(ctx, "R-C05.7")
 
+    # ---- R-C05.11 the registry counts views one by one: open / clone add exactly one registration (first = 1), close takes
+    #      exactly one back. Taking back two releases a sibling view's instant: gc then frees versions it still reads.
+    registration_arithmetic(ctx, "R-C05.11")
+
     # ---- borrowed obligations (mechanisms owned by other properties that this property's verdict also rests on)
     # a snapshot opened while a batch is being applied must not be handed an instant past the batch
     ctx.borrow("C06", ["R-C06.11"], "R-C05.10")
@@ -451,3 +455,52 @@ def run(ctx):
     # the meta keyspace publishes exactly what it drew
     ctx.borrow("C11", ["R-C11.4"], "R-C05.9")
 
+
+
+def _int_consts(fn):
+    """integer constants used as the second operand of add / sub operations (statements and saturating_* calls)"""
+    out = []
+    for b, blk in enumerate(fn.blocks):
+        if blk["cleanup"]:
+            continue
+        for st in blk["s"]:
+            rv = st["rv"]
+            if rv["k"] in ("bin", "checked_bin") and rv.get("op", "").startswith(("Add", "Sub")) and "const" in rv.get("b", {}):
+                out.append((rv["op"][:3], rv["b"]["const"].get("val")))
+    for b, t in fn.calls():
+        n = A.cname(t)
+        if n.endswith(("::saturating_sub", "::saturating_add", "::wrapping_sub", "::wrapping_add", "::checked_sub", "::checked_add")) and len(t["args"]) == 2 and "const" in t["args"][1]:
+            out.append(("Sub" if "_sub" in n else "Add", t["args"][1]["const"].get("val")))
+    return out
+
+
+def registration_arithmetic(ctx, rule):
+    F = ctx.F
+    T = "snapshot_tracker::SnapshotTracker::"
+    n = 0
+    for leaf in ("open", "clone_snapshot"):
+        fn = ctx.fn(T + leaf, rule)
+        if not fn:
+            continue
+        og = ctx.og(fn)
+        ins = [(b, t) for b, t in fn.calls() if A.cname(t).endswith("::or_insert")]
+        first = [og.of_operand(t["args"][1]) for b, t in ins]
+        first_ok = len(ins) == 1 and first[0].k == "const" and first[0].a[:2] == ("int", 1)
+        mods = [f for fid, f in F.fns.items() if fid.startswith(T + leaf + "::{closure")]
+        ar = [c for f in mods for c in _int_consts(f)]
+        mod_ok = ar == [("Add", 1)]
+        n += 1
+        ctx.ob(rule, fn, "registers-exactly-one", first_ok and mod_ok,
+               "first registration of an instant = 1, every further one += 1" if first_ok and mod_ok else
+               "registration arithmetic is %s with first value %s (want += 1 / 1): the count of open views at an instant is wrong — gc frees an instant a view still reads, or never frees it" % (ar, [A.tstr(x) for x in first]))
+    cr = ctx.fn(T + "close_raw", rule)
+    if cr:
+        alt = [(b, t) for b, t in cr.calls() if A.cname(t).endswith("::alter")]
+        mods = [f for fid, f in F.fns.items() if fid.startswith(T + "close_raw::{closure")]
+        ar = [c for f in mods for c in _int_consts(f)]
+        ok = len(alt) == 1 and ar == [("Sub", 1)] and not A.in_cycle(cr, alt[0][0])
+        n += 1
+        ctx.ob(rule, cr, "unregisters-exactly-one", ok,
+               "closing a view takes one registration back (saturating)" if ok else
+               "close_raw's arithmetic is %s over %d alter call(s) (want one `- 1`): closing one view releases a sibling's registration — gc then frees versions the sibling still reads" % (ar, len(alt)))
+    ctx.floor(rule, "registry arithmetic sites", n, 3)
